@@ -48,7 +48,8 @@ Definition observe (s : state) (U : list addr) (D : list denom) : list (list Z) 
   ++ [104 :: match funders s with Some l => Z.of_nat (length l) :: l | None => [-1] end]
   ++ [[105; now s]]
   ++ [106 :: map (gifts s) D]
-  ++ [[107; Z.of_nat (length (lics s))]].
+  ++ [[107; Z.of_nat (length (lics s))]]
+  ++ flat_map (fun c => match contracts s c with Some v => [[108; c; v]] | None => [] end) [1; 2; 3].
 
 Definition obs_eqb : list (list Z) -> list (list Z) -> bool := list_eqb (list_eqb Z.eqb).
 
